@@ -140,6 +140,13 @@ def run(ctx, res):
                     continue
                 cases.append((b'z ' + a + sep + b + b' z\n', 'default', None, 'pair'))
     res.count('pairs', len(cases) - nprog)
+    # string literals: the same value under both delimiters and as a long string, in one program and in consecutive ones (both orders)
+    for v in (b'"x"', b"'y'", b'a"b\'c', b'"', b"'", b'""', b"it's", b'say "hi"', b'\n', b'\\'):
+        dq = b'"' + v.replace(b'\\', b'\\\\').replace(b'"', b'\\"').replace(b'\n', b'\\n') + b'"'
+        sq = b"'" + v.replace(b'\\', b'\\\\').replace(b"'", b"\\'").replace(b'\n', b'\\n') + b"'"
+        for prog in (b'a=' + sq + b' b=' + dq + b'\n', b'a=' + dq + b' b=' + sq + b'\n', b'a=' + sq + b'\n', b'a=' + dq + b'\n', b'a=' + sq + b'\n',
+                     b'f' + dq + b' g' + sq + b' h{' + dq + b',' + sq + b'}\n'):
+            cases.append((prog, 'default', None, 'string-delimiters'))
     keep_cache = {}
     speclines, modellines, outs = [], [], []
     for src, cfg, keep, tag in cases:
